@@ -50,6 +50,9 @@ pub fn units(tier: &str, seed: u64) -> Vec<String> {
         ("EL.RED.SUMINISTRO.A,GN.RED.A_RED.A", "none", "none"),
         ("EL.RED.SUMINISTRO.A,BM.COGEN.SUMINISTRO.A,GN.RED.SUMINISTRO.A", "none", "none"),
         ("EL.RED.SUMINISTRO.B,GN.RED.SUMINISTRO.A", "none", "none"),
+        // a usable set without electricity (what --of writes for a building without electricity)
+        ("GN.RED.SUMINISTRO.A,BM.RED.SUMINISTRO.A", "none", "none"),
+        ("GN.RED.SUMINISTRO.A,MA.INSITU.A_RED.B", "sym", "none"),
         // duplicate line: the first one wins
         ("EL.RED.SUMINISTRO.A,GN.RED.SUMINISTRO.A,GN.RED.SUMINISTRO.A", "none", "none"),
         ("EL.RED.SUMINISTRO.A,BM.RED.SUMINISTRO.A,EL.COGEN.A_RED.A", "none", "none"),
@@ -134,10 +137,9 @@ pub fn scenario(u: &Unit) -> String {
             fp
         }
         Err(e) => {
-            // rejecting is always allowed for an unusable set; a usable set without electricity is also
-            // refused by the implementation (it insists on an electricity grid factor), which the property permits
-            let no_el = !file.iter().any(|x| x.0 == "ELECTRICIDAD.RED.SUMINISTRO.A");
-            ob("rejected-only-if-unusable", if unusable || no_el { t() } else { f() });
+            // rejecting is for unusable sets only (a set without electricity is usable for a building without it:
+            // the program writes such sets itself with --of)
+            ob("rejected-only-if-unusable", if unusable { t() } else { f() });
             ob("rejected-with-MissingFactor", if err_kind(&e) == "err:MissingFactor" { t() } else { f() });
             return err_kind(&e).to_string();
         }
